@@ -1,7 +1,9 @@
 package core
 
 import (
+	"errors"
 	"fmt"
+	"reflect"
 	"sync"
 
 	"github.com/junioryono/godi/v4"
@@ -102,6 +104,10 @@ type poOut struct {
 	B *poB
 }
 
+type poUser struct{ b *poB }
+
+func poNewUser(b *poB) *poUser { return &poUser{b} }
+
 func poCtorMR() (*poA, *poB) { return poMake() }
 func poCtorOut() poOut       { a, b := poMake(); return poOut{A: a, B: b} }
 
@@ -122,7 +128,8 @@ func RunPartialOutputs(c *eng.Ctx, prop string, next func() (int, bool)) {
 			for round := 0; round < rounds; round++ {
 				for _, f := range poCase(form, life) {
 					isC10 := f.Clause == "never-closed" || f.Clause == "closed-twice"
-					if (prop == "C10") != isC10 || reported[f.Clause] {
+					isC07 := f.Clause == "captive-dependency-accepted"
+					if (prop == "C10") != isC10 || (prop == "C07") != isC07 || reported[f.Clause] {
 						continue
 					}
 					reported[f.Clause] = true
@@ -204,6 +211,26 @@ func poCase(form string, life godi.Lifetime) (fs []Finding) {
 			_ = s.Close()
 		}
 		_ = prov.Close()
+		// the collection is extended and built again: a singleton / transient that takes the
+		// scoped B is a captive dependency, whatever the first provider has been through
+		if life == godi.Scoped && !same {
+			for _, cl := range []godi.Lifetime{godi.Singleton, godi.Transient} {
+				err := eqAdd(coll, cl, poNewUser)
+				if err != nil {
+					break
+				}
+				p2, berr2 := coll.Build()
+				var lce *godi.LifetimeConflictError
+				var lcv godi.LifetimeConflictError
+				if berr2 == nil {
+					add("captive-dependency-accepted", fmt.Sprintf("after a provider of the collection had retried the constructor, a %s func(*poB) *poUser was registered and Build accepted it although *poB is registered as scoped", lifeName(cl)))
+					_ = p2.Close()
+				} else if !errors.As(berr2, &lce) && !errors.As(berr2, &lcv) {
+					add("captive-dependency-accepted", fmt.Sprintf("the second Build failed, but not with a lifetime conflict: %v", berr2))
+				}
+				coll.Remove(reflect.TypeOf((*poUser)(nil)))
+			}
+		}
 	}
 	// whatever Build said: every B the constructor made was created by the container
 	w.mu.Lock()
